@@ -461,6 +461,56 @@ def check_fault(case):
     return out
 
 
+# ----------------------------------------------------------------------------
+# clause: one solver object, the caller updates A (and b) IN PLACE between solves
+
+
+@st.composite
+def reuse_cases(draw, tier):
+    c = draw(systems(tier, nmax=5))
+    if c["clsb"] == "zero":
+        c["b"] = c["b"].copy()
+        c["b"][0, 0, 0] = 10.0 ** c["scale_exp"]
+        c["clsb"] = "sparse_support"
+    c["cap"] = None
+    c["mix"] = draw(st.sampled_from([0.5, 0.25, 2.0]))
+    return c
+
+
+def check_reuse(case):
+    out = Out()
+    A, b, tol, prec = case["A"], case["b"], case["tol"], case["prec"]
+    n = A.shape[0]
+    sc = 10.0 ** case["scale_exp"]
+    A2 = case["mix"] * A[::-1, ::-1].copy() + 3.0 * sc * ref.qeye(n) * max(1.0, ref.fro(A) / sc)
+    b2 = b[::-1].copy() * 0.5 + 0.25 * sc
+    k1, k2 = ref.cond(A), ref.cond(A2)
+    out.label("prec=" + str(prec))
+    if not (np.isfinite(k1) and np.isfinite(k2)) or max(k1, k2) > 1e4:
+        out.label("skipped_illconditioned")
+        return out
+    solver = L.solver.QGMRESSolver(tol=tol, max_iter=None, verbose=False, preconditioner=prec)
+    Aq, bq = Q(A), Q(b)
+    ok, r = out.call("QGMRES first solve", solver.solve, Aq, bq)
+    if not ok:
+        return out
+    Aq[...] = Q(A2)            # the caller updates the SAME array objects in place
+    bq[...] = Q(b2)
+    ok, r = out.call("QGMRES second solve on updated arrays", solver.solve, Aq, bq)
+    if not ok:
+        return out
+    x, info = F(np.asarray(r[0])), r[1]
+    site = f"QGMRES(prec={prec}) after in-place update of A and b"
+    if out.true(site + ":x shape", x.shape == b2.shape, f"{x.shape}"):
+        rr = common_info_checks(out, site, A2, b2, x, info, tol, k2, prec)
+        if rr is not None:
+            floor = 1e3 * U_ * k2 * n
+            out.le(site + ":solves the UPDATED system", rr, max(tol * (10.0 * k2 if prec else 1.0) * (1 + 1e-6), floor),
+                   f"true relative residual w.r.t. the new A, b; tol={tol:g}")
+    out.nontrivial = True
+    return out
+
+
 PROPERTY = Property(
     id="C04",
     title="Q-GMRES returns a true solution and truthful convergence information",
@@ -472,6 +522,7 @@ PROPERTY = Property(
         Clause("cycle_optimality", check_chain, strategy=chain_cases, budget={"quick": 150, "thorough": 2000}),
         Clause("invariance", check_invariance, strategy=invariance_cases, budget={"quick": 150, "thorough": 2000}),
         Clause("faults", check_fault, strategy=fault_cases, budget={"quick": 150, "thorough": 2000}),
+        Clause("solver_reuse_inplace", check_reuse, strategy=reuse_cases, budget={"quick": 150, "thorough": 2000}),
     ],
     assumptions=[
         "reference solution / condition number from LAPACK on the harness's complex adjoint",
